@@ -431,7 +431,11 @@ func judgeOutcomes(what string, specOf func(modelAnswer) *bool) func(args, real,
 					// the model (which mirrors newGraph's delete of the wrong key) predicts this acceptance
 					return core.Fail(keyNewGraph, fmt.Sprintf("%s accepts a project whose dependency graph has a cycle (outcomes over %d runs: %s)", what, len(r.Outs), real))
 				}
-				return core.Fail("accepted-inconsistent:"+strings.Join(d.Broken, "+"), fmt.Sprintf("%s = nil but the project breaks %v", what, d.Broken))
+				broken := strings.Join(d.Broken, "+")
+				if broken == "" {
+					broken = "cycle"
+				}
+				return core.Fail("accepted-inconsistent:"+broken, fmt.Sprintf("%s = nil but the project breaks %v", what, broken))
 			}
 			if realErr != "" && *spec {
 				return core.Fail("rejected-consistent:"+realErr, fmt.Sprintf("%s rejects (%s) a project the specification calls consistent", what, realErr))
